@@ -3,7 +3,7 @@
 (* One handler (the transducer SrcCore or DstCore) under an adversarial    *)
 (* environment: any sequence of inputs from a small universe (PDUs of      *)
 (* every kind with right and wrong addressing, None-calls, clock jumps,    *)
-(* cancel / put requests, rejected writes).  The behaviour is kept as a    *)
+(* cancel / put / reset requests, rejected filestore operations).  The behaviour is kept as a    *)
 (* trace in exactly the format the harness records from the real handler,  *)
 (* so the monitors of CfdpProps are checked by TLC on EVERY input sequence *)
 (* up to the depth bound (invariant NoViolation), and every sequence is    *)
@@ -49,11 +49,13 @@ Step(i) ==
      ELSE IF Side = "S" THEN
         LET c == CASE i.k = "put" -> S!SrcPut(hs, cfg, i.a, now)
                    [] i.k = "fsm" -> S!SrcFsm(hs, cfg, i.a, now)
+                   [] i.k = "reset" -> S!SrcReset(hs, now)
                    [] OTHER -> S!SrcCancel(hs, cfg, i.a.right, now)
             dr == S!SrcDrain(c.h, -1) IN
         hs' = dr.h /\ tr' = Append(tr, EvS(i, c, dr)) /\ UNCHANGED <<hd, now>>
      ELSE
         LET c == CASE i.k = "fsm" -> D!DstFsm(hd, cfg, i.a, now, i.w)
+                   [] i.k = "reset" -> D!DstReset(hd, now)
                    [] OTHER -> D!DstCancel(hd, cfg, i.a.right, now)
             dr == D!DstDrain(c.h, -1) IN
         hd' = dr.h /\ tr' = Append(tr, EvD(i, c, dr)) /\ UNCHANGED <<hs, now>>
